@@ -431,7 +431,7 @@ fn scalar_leaves(doc: &Node) -> Vec<usize> {
 }
 
 /// integer-only tree with string keys; multi-byte text in keys / quoted siblings shifts offsets
-fn arb_int_tree() -> impl Strategy<Value = Node> {
+fn arb_int_tree() -> impl Strategy<Value = Node> + Clone + use<> {
     let leaf = (1i64..1000).prop_map(|i| Node::plain(&i.to_string()));
     leaf.prop_recursive(4, 24, 4, |inner| {
         let key = prop_oneof![
@@ -606,4 +606,10 @@ impl Property for C16 {
 
 fn main() {
     engine::main::<C16>()
+}
+
+/// entry point of the libFuzzer target `fuzz/fuzz_targets/c16.rs`
+#[allow(dead_code)]
+pub fn fuzz(data: &[u8]) {
+    engine::fuzz_one::<C16>(data)
 }
